@@ -212,6 +212,15 @@ for _n, _N, _tier, _exp in (("c12_wordlike_4", 4, "quick", 300), ("c12_wordlike_
       claim="word-like tokens (look-alikes of null / true / false / yes / no / on / off / .inf / .nan in EVERY letter case) are never emitted plain when the deserializer's own tables would read them as null, bool or float",
       bound="all %d-byte tokens over ASCII letters and ~ . + -, key and block-value position, both yaml_12" % _N, assumes=[STD_STUBS, FMT_STUB, NUMLOOK, E2E])
 
+# --------------------------------------------------------------------------------------------
+# C02 / C08 / C10 / C11 event pump (src/live_events.rs): real parser over a concrete tiny text,
+# pump state havoc'ed before the step of interest
+# --------------------------------------------------------------------------------------------
+PUMP_ENV = ["the saphyr parser runs over a concrete YAML text (concrete execution inside the symbolic executor); anchor_store::recursive_anchor_in_progress is stubbed to false (thread-local => Kani ICE; recursion wrappers are outside every claim)"]
+H("c02_alias_scalar_copy", "live_events", ["C02", "C08"], expect_s=300, timeout=1800, mem_gb=20, weight=2, functions=["live_events::LiveEvents::next_impl (Alias arm, inject loop)", "live_events::LiveEvents::record"],
+  claim="'- &a x / - *a': the alias delivers an event equal to the anchored scalar iff the three alias limits admit one more expansion; the replayed event is counted; otherwise an error - never a different value",
+  bound="concrete text; alias limits, total replayed events so far and per-anchor expansion count free 64-bit words", assumes=PUMP_ENV)
+
 PROP_NOTES = {
     "C07": "C07 is decided at the level of the budget automaton: one inductive step from an arbitrary state satisfying the "
            "representation invariant covers histories of any length; that LiveEvents::next_impl is the only path from parser to "
